@@ -244,6 +244,8 @@ def _dict(it, fr, a, k):
         src = a[0]
         if isinstance(src, PyDict):
             d = ops.dict_copy(src)
+        elif hasattr(src, "m_copy") and not k:
+            return src.m_copy(it)
         else:
             for kv in it.to_list(src):
                 kk, vv = it.to_list(kv)
